@@ -1,8 +1,265 @@
-/- Driver handler owned by property C01: `c01 <args…>` requests. -/
+/-
+  Driver handler owned by property C01: `c01 <args…>` requests.
+
+    c01 run <hex sexp> <arg>… [| <arg>… ]…   →  <answer> [| <answer>]…
+        <arg>    ::= <ty>:<bits>       (bits: unsigned decimal bit pattern)
+        <answer> ::= ok <ty> <bits> | trap | fuel | stuck <why>
+    c01 op <binop> <ty> <bits> <bits>        →  <answer>      (one operator on two operands)
+    c01 un <neg|not> <ty> <bits>             →  <answer>
+    c01 dce <cfg>                            →  ok <cfg> | panic | fuel
+        the Lean model of `mir/dead_code.rs` (`RotoV.Dce.dce`) on a CFG skeleton:
+        <cfg> ::= <block>;<block>;…     <block> ::= <label>:<ins>,<ins>,…
+        <ins> ::= o | r | j<label> | s<label>.<label>…[e<label>]
+
+  Program s-expressions (printed by harness/src/bin/c01.rs):
+    prog  ::= (prog fn…)
+    fn    ::= (fn name ((x ty)…) ty blk)
+    blk   ::= (blk (stmt…) [expr])
+    stmt  ::= (let x expr) | (do expr)
+    expr  ::= (lit ty n) | (var x) | (neg e) | (not e) | (bin op e e)
+            | (if e blk [blk]) | (while e blk) | (block blk) | (call f e…)
+            | (set x e) | (cset op x e) | (ret [e])
+  Integer literals carry their mathematical value (signed decimal), floats
+  their bit pattern, bool 0/1.
+-/
 import Driver.Util
+import RotoV.Model.Spec
+import RotoV.Model.NativeFloat
+import RotoV.Model.Dce
 
 namespace Driver.C01
+open RotoV RotoV.Spec
 
-def handle (_args : List String) : String := "bad-op"
+instance : FloatOps := nativeFloatOps
+
+inductive Sexp
+  | atom (s : String)
+  | list (xs : List Sexp)
+  deriving Inhabited
+
+def tokens (s : String) : List String :=
+  let step (acc : List String × String) (c : Char) : List String × String :=
+    let (out, cur) := acc
+    let flush := if cur.isEmpty then out else cur :: out
+    if c = '(' then ("(" :: flush, "")
+    else if c = ')' then (")" :: flush, "")
+    else if c = ' ' || c = '\n' || c = '\t' then (flush, "")
+    else (out, cur.push c)
+  let (out, cur) := s.foldl step ([], "")
+  (if cur.isEmpty then out else cur :: out).reverse
+
+/-- parse one s-expression; returns it and the remaining tokens -/
+partial def parseSexp : List String → Option (Sexp × List String)
+  | [] => none
+  | "(" :: rest =>
+    let rec go (ts : List String) (acc : List Sexp) : Option (Sexp × List String) :=
+      match ts with
+      | [] => none
+      | ")" :: rest => some (.list acc.reverse, rest)
+      | ts => match parseSexp ts with
+        | some (x, rest) => go rest (x :: acc)
+        | none => none
+    go rest []
+  | ")" :: _ => none
+  | a :: rest => some (.atom a, rest)
+
+def parseITy : String → Option ITy
+  | "u8" => some .u8 | "u16" => some .u16 | "u32" => some .u32 | "u64" => some .u64
+  | "i8" => some .i8 | "i16" => some .i16 | "i32" => some .i32 | "i64" => some .i64
+  | _ => none
+
+def parseTy (s : String) : Option Ty :=
+  match s with
+  | "f32" => some .f32 | "f64" => some .f64 | "bool" => some .bool | "unit" => some .unit
+  | _ => (parseITy s).map .int
+
+def showITy : ITy → String
+  | .u8 => "u8" | .u16 => "u16" | .u32 => "u32" | .u64 => "u64"
+  | .i8 => "i8" | .i16 => "i16" | .i32 => "i32" | .i64 => "i64"
+
+def parseOp : String → Option BinOp
+  | "add" => some .add | "sub" => some .sub | "mul" => some .mul | "div" => some .div
+  | "mod" => some .mod | "eq" => some .eq | "ne" => some .ne | "lt" => some .lt
+  | "le" => some .le | "gt" => some .gt | "ge" => some .ge | "and" => some .and
+  | "or" => some .or | _ => none
+
+/-- a value of type `ty` from its bit pattern -/
+def valOfBits (ty : Ty) (n : Nat) : Option Val :=
+  match ty with
+  | .int t => if n < 2 ^ t.bits then some (.int t (t.ofBits n)) else none
+  | .f32 => if n < 2 ^ 32 then some (.f32 (BitVec.ofNat 32 n)) else none
+  | .f64 => if n < 2 ^ 64 then some (.f64 (BitVec.ofNat 64 n)) else none
+  | .bool => if n = 0 then some (.bool false) else if n = 1 then some (.bool true) else none
+  | .unit => some .unit
+
+def showVal : Val → String
+  | .int t v => s!"{showITy t} {t.toBits v}"
+  | .f32 b => s!"f32 {b.toNat}"
+  | .f64 b => s!"f64 {b.toNat}"
+  | .bool b => s!"bool {if b then 1 else 0}"
+  | .unit => "unit 0"
+
+def showR : R Val → String
+  | .ok v => "ok " ++ showVal v
+  | .ret v => "ok " ++ showVal v
+  | .trap => "trap"
+  | .fuel => "fuel"
+  | .stuck w => "stuck " ++ w.replace " " "_"
+
+/-- literal: ints by mathematical value (must be in range), floats by bits -/
+def litVal (ty : String) (n : String) : Option Val := do
+  let t ← parseTy ty
+  match t with
+  | .int it =>
+    let v ← n.toInt?
+    if it.inRange v then some (.int it v) else none
+  | .unit => some .unit
+  | t => valOfBits t (← n.toNat?)
+
+mutual
+partial def toExpr : Sexp → Option Expr
+  | .list [.atom "lit", .atom ty, .atom n] => (litVal ty n).map .lit
+  | .list [.atom "var", .atom x] => some (.var x)
+  | .list [.atom "neg", e] => (toExpr e).map .neg
+  | .list [.atom "not", e] => (toExpr e).map .not
+  | .list [.atom "bin", .atom op, l, r] => do
+    some (.bin (← parseOp op) (← toExpr l) (← toExpr r))
+  | .list [.atom "if", c, t] => do some (.ite (← toExpr c) (← toBlock t) none)
+  | .list [.atom "if", c, t, e] => do some (.ite (← toExpr c) (← toBlock t) (some (← toBlock e)))
+  | .list [.atom "while", c, b] => do some (.while (← toExpr c) (← toBlock b))
+  | .list [.atom "block", b] => (toBlock b).map .block
+  | .list (.atom "call" :: .atom f :: args) => do some (.call f (← args.mapM toExpr))
+  | .list [.atom "set", .atom x, e] => (toExpr e).map (.assign x)
+  | .list [.atom "cset", .atom op, .atom x, e] => do some (.cassign (← parseOp op) x (← toExpr e))
+  | .list [.atom "ret"] => some (.ret none)
+  | .list [.atom "ret", e] => do some (.ret (some (← toExpr e)))
+  | _ => none
+partial def toStmt : Sexp → Option Stmt
+  | .list [.atom "let", .atom x, e] => (toExpr e).map (.let_ x)
+  | .list [.atom "do", e] => (toExpr e).map .expr
+  | _ => none
+partial def toBlock : Sexp → Option Block
+  | .list [.atom "blk", .list stmts] => do some (.mk (← stmts.mapM toStmt) none)
+  | .list [.atom "blk", .list stmts, e] => do some (.mk (← stmts.mapM toStmt) (some (← toExpr e)))
+  | _ => none
+end
+
+def toParam : Sexp → Option (String × Ty)
+  | .list [.atom x, .atom ty] => (parseTy ty).map (x, ·)
+  | _ => none
+
+def toFn : Sexp → Option FnDef
+  | .list [.atom "fn", .atom name, .list ps, .atom ret, body] => do
+    some { name, params := ← ps.mapM toParam, ret := ← parseTy ret, body := ← toBlock body }
+  | _ => none
+
+def toProg : Sexp → Option (List FnDef)
+  | .list (.atom "prog" :: fns) => fns.mapM toFn
+  | _ => none
+
+def parseProg (hex : String) : Option (List FnDef) := do
+  let bytes ← unhex hex
+  let src := String.ofList (bytes.map (fun b => Char.ofNat b.toNat))
+  let (sx, rest) ← parseSexp (tokens src)
+  if !rest.isEmpty then none
+  toProg sx
+
+def parseArg (s : String) : Option Val :=
+  match s.splitOn ":" with
+  | [ty, bits] => do valOfBits (← parseTy ty) (← bits.toNat?)
+  | _ => none
+
+/-- fuel = bound on the evaluation depth; generated programs need a few
+    hundred at most (loop trip counts ≤ 8, recursion depth ≤ 20). -/
+def FUEL : Nat := 20000
+
+def splitTuples (args : List String) : List (List String) :=
+  let (done, cur) := args.foldl
+    (fun (acc : List (List String) × List String) a =>
+      if a = "|" then (acc.2.reverse :: acc.1, []) else (acc.1, a :: acc.2))
+    ([], [])
+  (cur.reverse :: done).reverse
+
+/-! ### `c01 dce` -/
+
+abbrev DInstr := Dce.Instr Unit Unit Unit
+
+def parseIns (s : String) : Option DInstr :=
+  match s.toList with
+  | ['o'] => some (.other ())
+  | ['r'] => some (.ret ())
+  | 'j' :: rest => (String.ofList rest).toNat?.map .jump
+  | 's' :: rest =>
+    let body := String.ofList rest
+    let (brs, dflt) := match body.splitOn "e" with
+      | [b, d] => (b, some d)
+      | _ => (body, none)
+    let labels := (brs.splitOn ".").filter (· ≠ "")
+    match labels.mapM (·.toNat?), dflt with
+    | some ls, none => some (.switch () (ls.zipIdx.map fun (l, i) => (i, l)) none)
+    | some ls, some d => d.toNat?.map fun d => .switch () (ls.zipIdx.map fun (l, i) => (i, l)) (some d)
+    | none, _ => none
+  | _ => none
+
+def parseBlock (s : String) : Option (Dce.Block Unit Unit Unit) :=
+  match s.splitOn ":" with
+  | [l, is] => do
+    let label ← l.toNat?
+    let instrs ← ((is.splitOn ",").filter (· ≠ "")).mapM parseIns
+    some { label, instrs }
+  | _ => none
+
+def showIns : DInstr → String
+  | .other _ => "o"
+  | .ret _ => "r"
+  | .jump l => s!"j{l}"
+  | .switch _ br d =>
+    "s" ++ ".".intercalate (br.map fun p => toString p.2) ++ (match d with | some d => s!"e{d}" | none => "")
+
+def showCfg (cfg : Dce.Cfg Unit Unit Unit) : String :=
+  ";".intercalate (cfg.map fun b => s!"{b.label}:" ++ ",".intercalate (b.instrs.map showIns))
+
+def handleDce (text : String) : String :=
+  match ((text.splitOn ";").filter (· ≠ "")).mapM parseBlock with
+  | none => "bad-cfg"
+  | some cfg =>
+    match Dce.dce cfg with
+    | .ok cfg' => "ok " ++ showCfg cfg'
+    | .panic => "panic"
+    | .fuel => "fuel"
+
+def handle (args : List String) : String :=
+  match args with
+  | ["dce", text] => handleDce text
+  | "run" :: hex :: rest =>
+    match parseProg hex with
+    | none => "bad-program"
+    | some fns =>
+      let answers := (splitTuples rest).map fun tup =>
+        match tup.mapM parseArg with
+        | none => "bad-arg"
+        | some vs => showR (run fns FUEL vs)
+      " | ".intercalate answers
+  | ["op", op, ty, a, b] =>
+    match parseOp op, parseTy ty with
+    | some op, some t =>
+      match valOfBits t a.toNat!, valOfBits t b.toNat! with
+      | some x, some y =>
+        -- through the interpreter, so `&&`/`||` take the short-circuit path
+        showR ((evalExpr [] 10 [] (.bin op (.lit x) (.lit y))).bind (fun p => .ok p.2))
+      | _, _ => "bad-arg"
+    | _, _ => "bad-op"
+  | ["un", op, ty, a] =>
+    match parseTy ty with
+    | some t =>
+      match valOfBits t a.toNat! with
+      | some x =>
+        match op with
+        | "neg" => showR (negate x)
+        | "not" => showR (lnot x)
+        | _ => "bad-op"
+      | none => "bad-arg"
+    | none => "bad-op"
+  | _ => "bad-op"
 
 end Driver.C01
